@@ -86,9 +86,11 @@ EncNode(h, id, st, batch) ==
                                           [x EXCEPT !.ops = Append(@, [op |-> IF k = 1 THEN "TUPLE1" ELSE IF k = 2 THEN "TUPLE2" ELSE "TUPLE3"])]
                       ELSE LET x == EncItems(h, n.kids, [s0 EXCEPT !.ops = Append(@, [op |-> "MARK"])], batch) IN
                            [x EXCEPT !.ops = Append(@, [op |-> "TUPLE"])]
-            IN [s1 EXCEPT !.ops = @ \o << [op |-> "NEWOBJ"], [op |-> "MEMOIZE"] >>,
-                          !.memo = [j \in DOMAIN s1.memo \cup {id} |-> IF j = id THEN s1.n ELSE s1.memo[j]],
-                          !.n = @ + 1]
+            IN \* memoized after its arguments - unless they led back to it and it is memoized already
+               IF id \in DOMAIN s1.memo THEN [s1 EXCEPT !.ops = Append(@, [op |-> "NEWOBJ"])]
+               ELSE [s1 EXCEPT !.ops = @ \o << [op |-> "NEWOBJ"], [op |-> "MEMOIZE"] >>,
+                               !.memo = [j \in DOMAIN s1.memo \cup {id} |-> IF j = id THEN s1.n ELSE s1.memo[j]],
+                               !.n = @ + 1]
       [] OTHER ->  \* list, dict, set: memoized before their contents
             LET empty == IF n.t = "list" THEN "EMPTY_LIST" ELSE IF n.t = "dict" THEN "EMPTY_DICT" ELSE "EMPTY_SET"
                 close == IF n.t = "list" THEN "APPENDS" ELSE IF n.t = "dict" THEN "SETITEMS" ELSE "ADDITEMS"
